@@ -323,7 +323,7 @@ Proof.
         -- same_oi_tac.
         -- rewrite app_length. lia.
     + destruct (Nat.eqb arg 0).
-      * destruct (cache_get (r_cache (getr s r)) key); inversion H; subst; clear H; simpl;
+      * destruct (cache_get (r_cache (getr s r)) key) as [child|]; [destruct (Nat.eqb child c); [discriminate|]|]; inversion H; subst; clear H; simpl;
           (eapply edge_on_frames; [|exact Inv]); keep_frames.
       * destruct (Nat.eqb arg 2); [inversion H; subst; clear H; simpl; (eapply edge_on_frames; [|exact Inv]); keep_frames|].
         destruct (r_cancel (getr s r)); [|discriminate].
